@@ -153,6 +153,45 @@ func main() {
 				}
 			}
 		}
+		if os.Getenv("ZCHECK_RETURNS") == "context" {
+			r := &Run{P: p, Funcs: map[string]bool{}, Regions: map[string]int{}}
+			var crows []*ctxRow
+			for _, n := range p.FuncNames() {
+				fn := p.Fn(n)
+				if fn.Blocks == nil {
+					continue
+				}
+				file, _ := p.FnPos(fn)
+				keep := false
+				for f := range files {
+					if strings.HasPrefix(file, f) {
+						keep = true
+					}
+				}
+				if !keep || strings.HasSuffix(file, ".pb.go") {
+					continue
+				}
+				m := r.effectContexts(fn)
+				var keys []string
+				for k := range m {
+					keys = append(keys, k)
+				}
+				sort.Strings(keys)
+				for _, k := range keys {
+					m[k].File = file
+					if m[k].Ctx == nil {
+						m[k].Ctx = []string{}
+					}
+					if m[k].Guards == nil {
+						m[k].Guards = []string{}
+					}
+					crows = append(crows, m[k])
+				}
+			}
+			b, _ := json.MarshalIndent(crows, "", " ")
+			fmt.Println(string(b))
+			return
+		}
 		if os.Getenv("ZCHECK_RETURNS") != "" {
 			r := &Run{P: p, Funcs: map[string]bool{}, Regions: map[string]int{}}
 			var rrows []trow
